@@ -123,14 +123,14 @@ def sentence(talker, frag_cnt, frag_num, seq, chan, payload, fill, delim='!', ch
     return ('%s%s*%02X' % (delim, body, c)).encode('latin-1')
 
 
-def render(bits, talker='AIVDM', chan='A', seq='', cuts=(), delim='!'):
+def render(bits, talker='AIVDM', chan='A', seq=None, cuts=(), delim='!'):
     """sentences (bytes) carrying `bits`; `cuts` = sorted cut points in armored characters"""
     payload, fill = armor(bits)
     pts = [0] + list(cuts) + [len(payload)]
     parts = [payload[a:b] for a, b in zip(pts, pts[1:])]
     n = len(parts)
-    if n > 1 and seq == '':
-        seq = '1'
+    if seq is None:
+        seq = '1' if n > 1 else ''
     return [sentence(talker, n, i + 1, seq, chan, p, fill if i == n - 1 else 0, delim) for i, p in enumerate(parts)]
 
 
